@@ -136,10 +136,11 @@ pub fn valid_query(rng: &mut Rng, spec: &AppSpec, qid: &str) -> Value {
         q.insert("destination_y".into(), json!(net.coords[d].1));
     }
     if has_plugin(spec, |p| matches!(p, InputPlugin::LoadBalancerNumeric { column: Some(_) })) {
-        q.insert("w".into(), json!(*rng.pick(&[0.0, 1.0, 1.0, 7.5, 1e6])));
+        // any JSON number: fractions and whole numbers in either spelling
+        q.insert("w".into(), rng.pick(&[json!(0.0), json!(1.0), json!(1), json!(7.5), json!(1e6), json!(40u64)]).clone());
     }
     if has_plugin(spec, |p| matches!(p, InputPlugin::LoadBalancerNumeric { column: None })) {
-        q.insert("query_weight_estimate".into(), json!(*rng.pick(&[0.0, 1.0, 3.0, 1e6])));
+        q.insert("query_weight_estimate".into(), rng.pick(&[json!(0.0), json!(1.0), json!(3), json!(1e6), json!(12u64)]).clone());
     }
     if has_plugin(spec, |p| matches!(p, InputPlugin::LoadBalancerCategorical { .. })) {
         q.insert("size".into(), json!(*rng.pick(&["small", "large", "zero", "unheard_of"])));
